@@ -38,7 +38,7 @@ def make_case(rnd, kind):
             if ib:
                 pieces.append(ib)
     elif kind == 'flood':
-        pieces = [MAGIC + noff(rnd.randbytes(rnd.choice([4, 5, 9]))) for _ in range(rnd.choice([100, 150, 250]))]
+        pieces = [MAGIC + noff(rnd.randbytes(rnd.choice([4, 5, 9]))) for _ in range(rnd.choice([150, 250, 400]))]
     elif kind == 'adjacent':
         # patterns one byte apart / overlapping the 80 bits consumed by a hit
         pieces = [MAGIC + noff(rnd.randbytes(rnd.randint(0, 9))) + MAGIC + noff(rnd.randbytes(4)) for _ in range(4)]
@@ -177,6 +177,10 @@ def run(ctx):
                     env['LBZIP2_VERIF_IN_GRANUL'] = str(rnd.choice([64, 256, 1024, 4096, 65536]))
                 if len(data) / int(env.get('LBZIP2_VERIF_IN_GRANUL', 262144)) > 300 and 'straggler' in env.get('LBZIP2_VERIF_SCHED', ''):
                     env['LBZIP2_VERIF_SCHED'] = env['LBZIP2_VERIF_SCHED'].split(':')[0] + ':jitter'
+                if kind == 'flood' and j % 2 == 0:
+                    # many candidates whose retrieve jobs are dropped mid-header: stresses the candidate table (finding F3)
+                    env['LBZIP2_VERIF_IN_GRANUL'] = '64'
+                    env['LBZIP2_VERIF_SCHED'] = '%d:jitter' % rnd.randrange(1, 1 << 30)
                 if kind == 'follower':
                     env['LBZIP2_VERIF_SCHED'] = '%d:straggler:40' % rnd.randrange(1, 1 << 30)
                     env['LBZIP2_VERIF_IN_GRANUL'] = str(rnd.choice([1024, 4096]))
